@@ -27,24 +27,8 @@ void GivaroC18_uses() {
 #include "gf2.h"
 #include "gfq.h"
 #include "givrandom.h"
-namespace Givaro {
-    template class Modular<int8_t>;
-    template class Modular<int16_t>;
-    template class Modular<uint8_t>;
-    template class Modular<uint16_t>;
-    template class Modular<int32_t, int64_t>;
-    template class Modular<uint32_t, uint64_t>;
-    template class Modular<int64_t, uint64_t>;
-    template class Modular<float, double>;
-    template class Modular<RecInt::ruint<6> >;
-    template class Modular<RecInt::ruint<7>, RecInt::ruint<8> >;
-    template class Modular<RecInt::rint<7> >;
-    template class ModularExtended<double>;
-    template class ModularExtended<float>;
-    template class ZRing<Integer>;
-    template class ZRing<double>;
-    template class ZRing<int64_t>;
-}
+// (the explicit instantiations `template class X;` of these classes are written by harness/c18_values.py behind this file, minus those
+// harness/c16_inst.C already contains: a duplicate explicit instantiation is an error)
 template <class D, class E> void GivaroC18_ring_ops(const D& F, E& r, const E& a, const E& b) {
     F.init(r); F.init(r, (int64_t)5); F.init(r, (uint64_t)5); F.init(r, Givaro::Integer(5)); F.init(r, 5.0);
     F.assign(r, a); F.add(r, a, b); F.sub(r, a, b); F.mul(r, a, b); F.div(r, a, b); F.neg(r, a); F.inv(r, a);
